@@ -34,6 +34,9 @@ Relaxations (what the statement leaves open; marked R-... in the code):
                               their owner after his turn (exempt from the snapshot oracle), but every step must be
                               covered by points this very player queued in his own ball and has not received yet,
                               and what he earned in earlier balls has arrived when his next ball starts.
+  R-group-havoc               the achievements q_a/q_b of the on-demand mode m2 are driven by the achievement group ag of
+                              m1; what the group does to them is not modelled: their state may change in any way, but
+                              only for the player who is up and only while m2 is loaded for him (otherwise: violation).
 Shot group sg2 (enable_rotation_events): rotation starts from the config (off) whenever its mode starts.
 Not relaxed: a player variable or persisted device state of a player who is not up never changes; a delayed
 control event or timeout scheduled in one player's ball never lands in another player's state; MPF survives any
